@@ -11,8 +11,11 @@ PROP = Prop(
          "sequence, tail choice K/L/K.i.n/L.i.n) for EVERY prefix k of every generated workload (raw produce plain/idempotent/transactional, "
          "EndTxn, OffsetCommit, CreateTopics, InitProducerID), plus second generations (restart on the image, continue a workload, crash "
          "again at sampled prefixes or clean Close, restart). thorough: every cut of every unsynced tail for the small workloads. "
-         "non-trivial = the crash point lies after the initial state was persisted (k > 60) or a tail is lost/cut, and every "
-         "second-generation case. distinct = distinct op lines.",
+         "Workload lines (reset/cont) carry the recorded trace and are checked for the acknowledgement discipline (no unsynced "
+         "byte anywhere when a request is acknowledged). non-trivial = crash point k > 0 (the image holds at least one file), every "
+         "second-generation case, every workload trace with at least one acknowledged request. The start-up phase (initial "
+         "saveToDisk: temp+sync+rename of every state file) is enumerated for the first workload of a run only. distinct = distinct "
+         "op lines (they carry the workload seeds).",
     trusted_base=["hand-written model of persist.go (framing, segment/index replay, partition recovery, groups.log replay, start-up) tied by "
                   "differential runs: the model's crash image and recovery must predict the recovered topics, logs (both isolation levels), "
                   "bounds, aborted-transaction lists and committed offsets of the real kfake exactly",
@@ -27,7 +30,8 @@ PROP = Prop(
     partial="RecordBatch framing of segment files (length at byte 8 + CRC) and the 15-byte index entries are modelled and checked "
             "differentially but their prefix-safety is not proved; producer/transaction listings (DescribeProducers, ListTransactions) are "
             "compared only across clean Close + restart; JSON and OS semantics beyond the crash model not modelled. Two full statements are "
-            "false of the code (negations proved): segment/index pairing after a torn append, state-log replay after an untruncated torn tail.",
+            "false of the code (negations proved): segment/index pairing after a torn append, state-log replay after an untruncated torn tail; "
+            "and the implicit abort of transactions open at a crash is not stable across recoveries (negation proved on fullReplayAborted).",
 )
 MANIFEST = {
     "text": "Lean theorems, for all entry lists / crash points / tail losses: readEntries(frames es ++ rest) = es ++ readEntries(rest); a torn "
@@ -41,7 +45,7 @@ MANIFEST = {
             "consistent with transaction outcomes, committed offsets, topics, clean close identical) on the real outputs.",
     "note": "Trusted: Lean kernel; hand-written model validated differentially, not verified; the harness' crash-simulating file system and "
             "its JSON decoding; CRC-32C, JSON, OS semantics beyond the stated crash model not modelled. Findings on the unchanged tree: "
-            "index-segment-skew-after-torn-append, state-log-torn-tail-kept (see known_findings.txt).",
+            "index-segment-skew-after-torn-append, state-log-torn-tail-kept, crash-aborted-txn-has-no-marker (see known_findings.txt).",
     "technique": "Lean 4 proof (induction over entry lists and operation prefixes, decided counterexample histories) with differential "
                  "crash-point enumeration against the real kfake on an injected crash-simulating file system",
 }
